@@ -307,7 +307,7 @@ def stack(draw, ds, universe, clean, frames, gated="any", allow_short=True, allo
         g = draw(gate(ds))
     sw, info = draw(select_weigh(ds, universe, clean, frames, allow_short=allow_short, allow_risk=allow_risk, scale_free=scale_free, pr=pr))
     algos = list(g) + sw
-    if allow_flow and draw(st.integers(0, 7)) == 0:
+    if allow_flow and (allow_flow == "force" or draw(st.integers(0, 7)) == 0):
         amt = draw(st.sampled_from([1000.0, 25000.0, -1000.0, -20000.0, 333.33]))
         algos.insert(draw(st.integers(0, len(algos))), ["CapitalFlow", {"amount": amt}])
         info += "+flow"
